@@ -1,5 +1,6 @@
 import PyYetiVerif.Lemmas.Op4Fixed
 import PyYetiVerif.Lemmas.Op4FixedFile
+import PyYetiVerif.Lemmas.Op4FixedDomain
 import PyYetiVerif.Lemmas.Op4FixedAscii
 import PyYetiVerif.Lemmas.Op4FixedChainC
 import PyYetiVerif.Props.C04
@@ -100,6 +101,79 @@ theorem file_roundtrip_binary_fixed (e : Endian) (ms : List (Layout × Mat))
   | some ws =>
     exact ⟨ws, rfl, rdFile_encFx e ms ws (ws.length + 1) henc
       (by have := encFileWordsFx_length e ms ws henc; omega) hw⟩
+
+/-- **write_domain for the patched writer**: the checked patched writer `writeFileWordsFx` succeeds only if every
+dimension, `cols + 1`, `form` and every column record length `recLenFx` fit a signed 32-bit integer, and then it writes
+what `encFileWordsFx` writes -/
+theorem write_domain_fixed (e : Endian) (ms : List (Layout × Mat)) (ws : List Nat) (h : writeFileWordsFx e ms = .ok ws) :
+    encFileWordsFx e ms = some ws ∧ ∀ p ∈ ms, p.2.rows < 2 ^ 31 ∧ p.2.cols.length + 1 < 2 ^ 31 ∧ p.2.form < 2 ^ 31 ∧
+      ∀ col ∈ p.2.cols, recLenFx p.1 p.2.cplx col < 2 ^ 31 :=
+  writeFileWordsFx_ok e ms ws h
+
+/-- **file_roundtrip_binary_domain for the patched writer**: whenever the checked patched writer succeeds on matrices
+whose columns have `rows` entries and whose name bytes are bytes (nonbigmat below 65536 rows), the reader decodes the
+words to one `Dec` per matrix, in order, with `DecOfXFx`: `DecOf` (name field, shape, form, type, puts that rebuild
+`decCol`), the column reader `layOf`, the `sparse=None` resolution `autoOf`, and the puts themselves — one per string
+of the patched writer.  The success of the writer no longer depends on string lengths (`file_writes_fixed`). -/
+theorem file_roundtrip_binary_domain_fixed (e : Endian) (ms : List (Layout × Mat)) (ws : List Nat)
+    (hcols : ∀ p ∈ ms, (∀ col ∈ p.2.cols, col.length = p.2.rows) ∧ (∀ b ∈ p.2.name, b < 256) ∧
+      (p.1 = .nonbigmat → p.2.rows < rows4bigmat))
+    (hwr : writeFileWordsFx e ms = .ok ws) :
+    ∃ ds, rdFile e (ws.length + 1) ws = some ds ∧ List.Forall₂ (DecOfXFx e) ms ds := by
+  obtain ⟨henc, hdom⟩ := writeFileWordsFx_ok e ms ws hwr
+  refine rdFile_encXFx e ms ws (ws.length + 1) henc (by have := encFileWordsFx_length e ms ws henc; omega) ?_
+  intro p hp
+  obtain ⟨h1, h2, h3, h4⟩ := hdom p hp
+  exact ⟨⟨(hcols p hp).1, h1, h2, h3, (hcols p hp).2.1, h4⟩, (hcols p hp).2.2⟩
+
+/-- **file_roundtrip_bytes_domain for the patched writer** — `op4.write(binary=True)` followed by
+`op4.load(into='list', sparse=False)` at the level of BYTES: if the patched writer produces the byte string `bytes` for a
+non-empty list of matrices on its true domain (`Mat.WfDBFx`: columns of `rows` entries, every packed integer below
+`2^31`, a valid name of at most 8 characters, 64-bit patterns; nonbigmat below 65536 rows), the reader — format
+detection, words from bytes, `_loadop4_binary`, `_check_name`, puts into zero matrices — returns exactly `canonFile ms`:
+names, shapes, forms, types and the columns `decCol` (bit-identical values).  Strings of any length: for a nonbigmat
+matrix below 65536 rows `encFileBytesFx` is never `none` because of a string header (`file_writes_fixed`). -/
+theorem file_roundtrip_bytes_domain_fixed (e : Endian) (ms : List (Layout × Mat)) (bytes : List Nat) (hne : ms ≠ [])
+    (hw : ∀ p ∈ ms, p.2.WfDBFx p.1 ∧ (p.1 = .nonbigmat → p.2.rows < rows4bigmat))
+    (henc : encFileBytesFx e ms = some bytes) :
+    decodeBytes bytes = some (canonFile ms) := by
+  unfold encFileBytesFx at henc
+  cases hws : encFileWordsFx e ms with
+  | none => rw [hws] at henc; cases henc
+  | some ws =>
+    rw [hws] at henc
+    simp only [Option.map_some, Option.some.injEq] at henc
+    subst henc
+    have hlt := encFileWordsFx_lt32' e ms ws (fun p hp => (hw p hp).1) hws
+    obtain ⟨ds, hds, hdecs⟩ := rdFile_encXFx e ms ws (ws.length + 1) hws
+      (by have := encFileWordsFx_length e ms ws hws; omega) (fun p hp => ⟨(hw p hp).1.wf, (hw p hp).2⟩)
+    obtain ⟨ws', hws'⟩ : ∃ ws', ws = 24 :: ws' := by
+      cases ms with
+      | nil => exact absurd rfl hne
+      | cons p t =>
+        obtain ⟨lay, m⟩ := p
+        simp only [encFileWordsFx] at hws
+        cases ha : encMatWordsFx e lay m with
+        | none => simp [ha] at hws
+        | some a =>
+          cases hb : encFileWordsFx e t with
+          | none => simp [ha, hb] at hws
+          | some b =>
+            simp only [ha, hb, Option.bind_eq_bind, Option.bind_some, Option.some.injEq] at hws
+            rw [← hws, encMatWordsFx_eq e lay m a ha]
+            simp only [headerWords, hdrReclen, List.cons_append, List.append_assoc]
+            exact ⟨_, rfl⟩
+    unfold decodeBytes
+    rw [hws', decodeFormat_enc e ws', ← hws']
+    simp only [wordsOfBytes_bytesOfWords e ws hlt, hds]
+    exact toRMats_decs ms ds 0 (decsOf_of_XFx e ms ds hdecs) fun p hp => ⟨(hw p hp).1.name_ident, (hw p hp).1.name_len⟩
+
+/-- non-vacuity of `file_roundtrip_binary_domain_fixed`: the checked patched writer accepts a two-string column -/
+example :
+    let m : Mat := { name := [97], form := 2, cplx := false, rows := 4, cols := [[(1, 0), (0, 0), (2, 0), (3, 0)]] }
+    (writeFileWordsFx .little [(.nonbigmat, m)]).toOption = (writeFileWords .little [(.nonbigmat, m)]).toOption ∧
+      (writeFileWordsFx .little [(.nonbigmat, m)]).toOption.isSome = true := by
+  decide
 
 /-- non-vacuity of `file_roundtrip_binary_fixed`: a two-matrix file with a nonbigmat member -/
 example :
